@@ -31,7 +31,32 @@ pub enum Kind {
     Hmc32,
     HmcWide,
     Nuts,
+    MhSleepy,
 }
+
+/// isotropic Gaussian target whose evaluation time depends on the chain's start (first coordinate
+/// of the first state it sees): chains of one sampler run at different speeds, deterministically in value
+#[derive(Clone, Debug)]
+pub struct SleepyTarget {
+    pub sleep_us: std::cell::Cell<Option<u64>>,
+}
+impl mini_mcmc::distributions::Target<f64, f64> for SleepyTarget {
+    fn unnorm_logp(&self, position: &[f64]) -> f64 {
+        let us = match self.sleep_us.get() {
+            Some(u) => u,
+            None => {
+                let u = ((position[0].abs() * 7919.0) as u64 % 5) * 120;
+                self.sleep_us.set(Some(u));
+                u
+            }
+        };
+        if us > 0 {
+            std::thread::sleep(std::time::Duration::from_micros(us));
+        }
+        -0.5 * position.iter().map(|x| x * x).sum::<f64>() / 2.25
+    }
+}
+unsafe impl Sync for SleepyTarget {}
 
 #[derive(Clone, Debug)]
 pub struct Cfg {
@@ -67,6 +92,18 @@ pub fn run_once(cfg: &Cfg, progress: bool) -> Result<Vec<u64>, String> {
                 p
             };
             let mut s = MetropolisHastings::new(IsotropicGaussian::<f64>::new(1.5), proposal, cfg.inits.clone()).seed(cfg.seed);
+            let a = if progress {
+                s.run_progress(cfg.n_collect, cfg.n_discard).unwrap().0
+            } else {
+                s.run(cfg.n_collect, cfg.n_discard).unwrap()
+            };
+            let mut v: Vec<u64> = a.shape().iter().map(|d| *d as u64).collect();
+            v.extend(a.iter().map(|x| x.to_bits()));
+            v
+        }
+        Kind::MhSleepy => {
+            let proposal = IsotropicGaussian::<f64>::new(0.9).set_seed(cfg.prop_seed);
+            let mut s = MetropolisHastings::new(SleepyTarget { sleep_us: std::cell::Cell::new(None) }, proposal, cfg.inits.clone()).seed(cfg.seed);
             let a = if progress {
                 s.run_progress(cfg.n_collect, cfg.n_discard).unwrap().0
             } else {
@@ -393,7 +430,7 @@ fn init_case(rep: &mut Report, case: u64, g: &mut Sm64) {
 }
 
 pub fn run(ctx: &Ctx, rep: &mut Report) {
-    let kinds = [Kind::Mh, Kind::MhFreshProposal, Kind::Gibbs, Kind::Hmc, Kind::Hmc32, Kind::Nuts, Kind::HmcWide];
+    let kinds = [Kind::Mh, Kind::MhFreshProposal, Kind::Gibbs, Kind::Hmc, Kind::Hmc32, Kind::Nuts, Kind::HmcWide, Kind::MhSleepy];
     for c in ctx.case_ids("bytes", 96, 20_000) {
         let mut g = ctx.rng("bytes", c);
         let kind = kinds[(c as usize / 4 + c as usize) % kinds.len()];
